@@ -5,6 +5,7 @@ Import ListNotations.
 
 Theorem C05_scan_literal_complete_partial : forall cf g inp t k s p,
   next_sym s = Some (ST (TLit p)) ->
+  k mod 8 = 0 ->
   is_prefix (lit_units p) (skipn (k / 8) (units inp)) = true ->
   k + 8 * List.length (lit_units p) < List.length t ->
   exists s', In s' (col (step cf g inp t k s) (k + 8 * List.length (lit_units p))) /\
